@@ -272,4 +272,52 @@ Section Stmts.
     rewrite Hret, Hrv. cbn [negb].
     eexists. split; [reflexivity|]. apply apnl_nl; auto.
   Qed.
+
+  (* the environment the expression parser sees is read off p.funcs *)
+  Lemma arity_env s n k :
+    arity_wrong (env_of B s) n k =
+    match lookup_fn n (fns s) with Some fi => match fi_arity fi with Some a => negb (Nat.eqb a k) | None => false end | None => false end.
+  Proof.
+    unfold arity_wrong, env_of. cbn [e_arity]. induction (fns s) as [|[m fi] l IH]; [reflexivity|].
+    cbn [map lookup_arity lookup_fn fst snd]. destruct (str_eqb m n); [reflexivity | exact IH].
+  Qed.
+
+  (* f a b ...   as a statement *)
+  Theorem call_stmt_roundtrip lvl s n args fi r e :
+    ident_text n = true -> lookup_fn n (fns s) = Some fi ->
+    arity_wrong (env_of B s) n (List.length args) = false ->
+    Forall (item_ok (env_of B s) true) args ->
+    at_toks s (toks_of_pieces (fmt_stmt fx lvl (FmtAst.SCall n args [])) ++ mk T_NL :: r) e ->
+    is_ws (look0 (skip1 r)) = false ->
+    exists s', parse_call_stmt B s = Ok (Some (Parser.SCallStmt (TCall n (map fexpr_tree args)))) s' /\ at_toks s' (skip1 r) e.
+  Proof.
+    intros Hn Hfi Har Hall Hat Hnext.
+    cbn [fmt_stmt] in Hat. unfold write_comment in Hat. cbn [is_empty] in Hat. rewrite app_nil_r in Hat.
+    change (fmt_call fx lvl n args) with (fmt_expr fx lvl (FCall n args)) in Hat.
+    rewrite (toks_call fx lvl n args Hn) in Hat.
+    set (ats := map (fun a => toks_of_pieces (fmt_expr fx lvl a)) args) in *.
+    destruct Hat as (Hr & Hw & He).
+    unfold parse_call_stmt. unfold cur. rewrite Hr. cbn [app look0 hd tlit ident_tok]. rewrite Hfi.
+    unfold p_func_call, expr_call. set (E := env_of B s). set (fuel := efuel (cs s)).
+    assert (Hargs : forall a, In a ats -> List.length a <= List.length (more_args ats)).
+    { clear. induction ats as [|x r0 IH]; intros a H; [contradiction|]. cbn [more_args flat_map]. fold (more_args r0).
+      simpl. rewrite app_length. destruct H as [->|H]; [lia|]. specialize (IH a H). lia. }
+    assert (Hnn : List.length ats <= List.length (more_args ats)).
+    { clear. induction ats as [|x r0 IH]; [simpl; lia|]. cbn [more_args flat_map]. fold (more_args r0). simpl. rewrite app_length. lia. }
+    assert (Hfuel : 2 * S (List.length (more_args ats)) <= fuel).
+    { unfold fuel, efuel, here. rewrite Hr. cbn [app List.length]. rewrite app_length. lia. }
+    assert (H1 : arity_wrong E n (List.length ats) = false) by (unfold ats; rewrite map_length; exact Har).
+    assert (H2 : Forall2 (fun a t => RT E true a t /\ head_ok a) ats (map fexpr_tree args)).
+    { unfold ats. clear - Hall BT. induction args as [|a r0 IH]; [constructor|]. inversion Hall; subst. cbn [map].
+      constructor; [apply (item_rt E (env_no_tyerr s) eq_refl fx true lvl a); assumption | apply IH; assumption]. }
+    assert (H3 : rest (cs s) = ident_tok n :: more_args ats ++ mk T_NL :: r).
+    { rewrite Hr. cbn [app]. rewrite <- ?app_assoc. reflexivity. }
+    assert (H6 : forall a, In a ats -> 2 * List.length a <= fuel) by (intros a Ha; specialize (Hargs a Ha); lia).
+    assert (H7 : List.length ats < fuel) by lia.
+    destruct (func_call_stmt E (env_no_tyerr s) fuel fuel (fi_nil fi) n ats (map fexpr_tree args) (cs s) (mk T_NL :: r) [] H1 H2 H3 Hw I H6 H7) as (c & P & Q1 & Q2 & Q3).
+    rewrite P.
+    assert (A3 : at_toks (collect s c) (mk T_NL :: r) e).
+    { apply collect_at; auto; [rewrite Q2; exact Hw | rewrite Q3; exact He]. }
+    rewrite (assert_eol_nl _ r e A3). eexists. split; [reflexivity|]. apply apnl_nl; auto.
+  Qed.
 End Stmts.
